@@ -19,6 +19,8 @@ import Driver.OpsGraphIo
 import Driver.OpsStruct4
 import Driver.OpsStruct5
 import Driver.OpsEmBackward
+import Driver.OpsStruct5Eval
+import Driver.OpsStruct5K
 /-
 Line-protocol driver: one JSON object per input line, one answer line per input line.
 Run with `lake env lean --run Driver/Main.lean < ops.jsonl`.
@@ -96,8 +98,10 @@ def handle (st : St) (j : Json) : Except String (St × String) := do
       handleGraphIo o j,
       handleStruct4 st.net o j,
       handleStruct5 o j,
+      handleStruct5K st.net st.root o j,
       handleStruct5Topo st.net st.root o j,
-      handleEmBackward st.net st.root o j ]
+      handleEmBackward st.net st.root o j,
+      handleStruct5Eval st.net st.root st.dom o j ]
     match exts.findSome? id with
     | some r => do let a ← r; pure (st, a)
     | none => .error s!"unknown op {o}"
